@@ -3,6 +3,8 @@ from __future__ import annotations
 
 import collections
 
+import ber
+
 import drive
 import gen
 from codec import sansldap
@@ -100,6 +102,41 @@ def run(ctx):
         except BaseException as e:  # noqa: BLE001
             violations.append({"key": None, "what": f"integer read-back raised {type(e).__name__}", "value": str(v), "hex": enc.hex()})
         distinct.add(("int", len(want), v < 0, want[-2:] == b"\0\0"))
+    # ---- the public writer/reader methods, INTEGER and ENUMERATED, default and explicit tag (the grid's boundary values all included)
+    boundary = [v for v in ints if abs(v) > ctx.scale(3000, 70000)]
+    public = sorted(set(boundary + ints[:: max(1, len(ints) // ctx.scale(2500, 40000))] + list(range(-300, 301))))
+    ctag = ASN1Tag(TagClass.CONTEXT_SPECIFIC, 7, False)
+    for v in public:
+        evaluations += 1
+        want = min_twos(v)
+        w = ASN1Writer()
+        w.write_integer(v)
+        w.write_enumerated(v)
+        w.write_integer(v, tag=ctag)
+        w.write_enumerated(v, tag=ctag)
+        data = bytes(w.get_data())
+        hist["public-writer:" + ("neg" if v < 0 else "pos")] += 1
+        try:
+            nodes = ber.parse(data, deep=False)
+        except Exception as e:  # noqa: BLE001
+            nodes = []
+        got = [(n.cls, n.cons, n.num, bytes(n.content)) for n in nodes]
+        exp = [(0, False, 2, want), (0, False, 10, want), (2, False, 7, want), (2, False, 7, want)]
+        if got != exp:
+            which = next((i for i in range(4) if i >= len(got) or got[i] != exp[i]), 0)
+            violations.append({"key": None, "what": "public " + ["write_integer", "write_enumerated", "write_integer(tag)", "write_enumerated(tag)"][which]
+                               + " does not emit the minimal two's-complement content under the expected identifier", "value": str(v),
+                               "got": data.hex(), "want_content": want.hex()})
+            continue
+        try:
+            r = ASN1Reader(data + b"\xAA")
+            back = [r.read_integer(), r.read_enumerated(int), r.read_integer(tag=ctag), r.read_enumerated(int, tag=ctag)]
+            rest = r.get_remaining_data()
+            if back != [v] * 4 or rest != b"\xAA":
+                violations.append({"key": None, "what": "public INTEGER/ENUMERATED read-back differs or over-consumes", "value": str(v), "hex": data.hex(),
+                                   "got": [str(b) for b in back], "rest": bytes(rest).hex()})
+        except BaseException as e:  # noqa: BLE001
+            violations.append({"key": None, "what": f"public INTEGER/ENUMERATED read-back raised {type(e).__name__}", "value": str(v), "hex": data.hex()})
     for v in ints[:: max(1, len(ints) // ctx.scale(1500, 20000))]:
         reqs.append({"op": "int_pack", "v": v})
         reqs.append({"op": "int_read", "hex": A._pack_asn1_integer(v).hex() + "aa"})
